@@ -732,7 +732,17 @@ class Spec(object):
                     if resp.raw not in (b'', None):
                         v.append(('c11-read:' + name, 'GET %s must have no body' % req['path']))
                     continue
-                want, got = norm(out.body()), norm(resp.json)
+                try:
+                    want, got = norm(out.body()), norm(resp.json)
+                except KeyError as e:
+                    # the rows refer to something that is not recorded (e.g. allocations of a
+                    # consumer without a consumer row): no sequence of successful requests
+                    # produces such rows, and the reference model cannot even render them
+                    v.append(('c11-rows-inconsistent:' + name,
+                              'the stored rows cannot be the result of successful requests: %r '
+                              'is referred to but not recorded (while rendering GET %s)' % (
+                                  e.args[0], req['path'])))
+                    continue
                 if '/usages' in name:
                     want, got = _drop_zero(want), _drop_zero(got)
                 if want != got:
